@@ -859,14 +859,17 @@ class C06(Prop):
     def model_requests(self, case):
         if case['kind'] == 'codec':
             w = to_wire(to_py(case['v']))
-            return [{'m': 'c06.encode', 'v': w}, {'m': 'c06.roundtrip', 'v': w}]
+            return [{'m': 'c06.encode', 'v': w}, {'m': 'c06.roundtrip', 'v': w}, {'m': 'c06.roundtripText', 'v': w}]
         if case['kind'] == 'batch':
             return [model_call_request(case['sites'][c['site']], c) for c in case['calls']]
         return [model_call_request(case['sites'][c['site']], c) for c in case['recorded'] + case['replayed']]
 
     def model_transcript(self, case, answers):
         if case['kind'] == 'codec':
-            return {'text': answers[0], 'back': canon_model(answers[1]['v']) if answers[1] else None}
+            # `backText`: the model's CHARACTER-level lexer applied to the text (equal to the real text, first field), then the
+            # token-level decoder: the lexer is exercised on every text the real serializer produces for these values
+            return {'text': answers[0], 'back': canon_model(answers[1]['v']) if answers[1] else None,
+                    'backText': canon_model(answers[2]['v']) if answers[2] else None}
         if case['kind'] == 'batch':
             return [{'direct': a['key'], 'decorated': a['key']} if 'key' in a else
                     {'direct': 'ERR:' + a['err'], 'decorated': '<discarded>'} for a in answers]
@@ -884,7 +887,7 @@ class C06(Prop):
 
     def impl_view(self, case, impl):
         if case['kind'] == 'codec':
-            return {'text': impl['text'], 'back': impl['back']}
+            return {'text': impl['text'], 'back': impl['back'], 'backText': impl['back']}
         if case['kind'] == 'batch':
             return impl['calls']
         return {'recorded': impl['recorded'], 'replayed': impl['replayed']}
